@@ -17,7 +17,14 @@ func (_ ValueObject) Kind() ValueKind { return ObjectValueKind }
 
 func (self ValueObject) Display() (string, *Interrupt) {
 	fields := make([]string, 0)
-	for key, field := range self.FieldsInternal {
+	keys := make([]string, 0, len(self.FieldsInternal))
+	for key := range self.FieldsInternal {
+		keys = append(keys, key)
+	}
+	// Sort the keys: map iteration order would make the output differ from run to run.
+	sort.Strings(keys)
+	for _, key := range keys {
+		field := self.FieldsInternal[key]
 		disp, err := (*field).Display()
 		if err != nil {
 			return "", err
